@@ -29,8 +29,8 @@ ENCODED = [
 BOUNDS = {
     "quick": "B: every outcome sequence of length N<=8 (DDM/EDDM n_threshold in {1,2,3}; STEPD window in {1,2}), labels arbitrary "
              "integers, thresholds universally quantified reals; S: one step from an arbitrary state (DDM, EDDM; symbolic "
-             "unbounded n_threshold)",
-    "thorough": "B: N<=11, n_threshold in {1..4}, STEPD window in {1,2,3}; S as quick plus STEPD with window contents of length <=3",
+             "unbounded n_threshold); STEPD by B only",
+    "thorough": "B: N<=11, n_threshold in {1..4}, STEPD window in {1,2,3}; S as quick",
 }
 OUTSIDE = ("sequences longer than N (covered only by the S steps, which use exact real arithmetic instead of IEEE doubles); "
            "the running-deviation recurrence of DDM/EDDM is taken from the tree as part of the specification (the statement "
@@ -38,7 +38,7 @@ OUTSIDE = ("sequences longer than N (covered only by the S steps, which use exac
 ASSUMPTIONS = [
     "B: statistics are the real doubles computed by the real code on each path; scipy.stats.norm.cdf is the real scipy (STEPD)",
     "S: pre-state satisfies the representation invariant; floats are exact reals; sqrt(x) is the r>=0 with r*r=x; "
-    "STEPD S-step: norm.cdf is an uninterpreted monotone function shared by implementation and specification",
+    "STEPD S-step: norm.cdf is modelled as a function (equal arguments, proved equal by the solver, give the same arbitrary value in [0,1])",
 ]
 TRUSTED = ["z3", "CPython/numpy executing the real detector code", "scipy.stats.norm.cdf (B mode, concrete arguments)"]
 
@@ -190,7 +190,7 @@ def make_stepd_state(ctx, pre, L):
     from menelaus.concept_drift import stepd as M
 
     w, aw, ad = ctx.int("window_size"), ctx.real("alpha_warning"), ctx.real("alpha_drift")
-    fake = stubs.fake_scipy_norm(uf=True)
+    fake = stubs.fake_scipy_norm(uf=False, congruence=True)
     d = M.STEPD(window_size=w, alpha_warning=aw, alpha_drift=ad)
     spec = STEPDSpec(w, aw, ad, lambda x: fake.stats.norm.cdf(x, 0, 1))
     total, since = _load_common(ctx, d, spec, pre)
@@ -245,8 +245,8 @@ def jobs(tier):
                 continue
             out.append(Job(f"ddm-step-{pre}-first{r0}", "checks.c05:body_ddm_step", {"pre": pre, "r0": r0}))
             out.append(Job(f"eddm-step-{pre}-first{r0}", "checks.c05:body_eddm_step", {"pre": pre, "r0": r0}))
-    if not q:
-        for pre in (None, "warning", "drift"):
-            for L in (0, 1, 2, 3):
-                out.append(Job(f"stepd-step-{pre}-L{L}", "checks.c05:body_stepd_step", {"pre": pre, "L": L}))
+    # STEPD has no S-step here: equality of the two statistic expressions (nested quotients under a square root with
+    # symbolic window size) is "unknown" for z3 within 60 s for short windows; STEPD is decided by the B runs above
+    # (every outcome sequence up to N for window sizes 1-3) and its lifecycle / clean-slate / agreement / monotonicity
+    # steps are in C01, C02, C16, C17.
     return out
